@@ -1066,3 +1066,67 @@ package raft
 //@ requires p.raft != nil
 //@ modifies p.raft.applied
 //@ ensures p.raft.applied == lastApplied
+
+// ---------------------------------------------------------------- the leader's view of a member's progress (C02)
+// From the property: an entry is committed only when it is stored on a quorum. The leader's evidence is
+// remote.match -- "the highest index this member has ACKNOWLEDGED to hold". It is raised only by tryUpdate
+// (called with the index a ReplicateResp acknowledged), only upwards and only to that index; every
+// other transition of the flow-control state machine (retry / wait / replicate / snapshot, rejection
+// handling, snapshot status reports) moves next, state and the pending snapshot index and leaves match
+// alone -- in particular a snapshot reported as sent does not count as an acknowledgement.
+//@ func (r *remote) clearSnapshotAck [C02]
+//@ modifies r.delayed.ctick, r.delayed.rejected
+//@ func (r *remote) setSnapshotAck [C02]
+//@ modifies r.delayed.ctick, r.delayed.rejected
+//@ func (r *remote) reset [C02]
+//@ modifies r.snapshotIndex
+//@ ensures r.snapshotIndex == 0
+//@ func (r *remote) becomeRetry [C02]
+//@ requires r.match < MaxUint64 && r.snapshotIndex < MaxUint64
+//@ modifies r.next, r.snapshotIndex, r.state
+//@ ensures r.state == remoteRetry && r.snapshotIndex == 0
+//@ ensures old(r.state) == remoteSnapshot ==> r.next == max(r.match + 1, old(r.snapshotIndex) + 1)
+//@ ensures old(r.state) != remoteSnapshot ==> r.next == r.match + 1
+//@ func (r *remote) retryToWait [C02]
+//@ modifies r.state
+//@ ensures r.state == ite(old(r.state) == remoteRetry, remoteWait, old(r.state))
+//@ func (r *remote) waitToRetry [C02]
+//@ modifies r.state
+//@ ensures r.state == ite(old(r.state) == remoteWait, remoteRetry, old(r.state))
+//@ func (r *remote) becomeWait [C02]
+//@ requires r.match < MaxUint64 && r.snapshotIndex < MaxUint64
+//@ modifies r.next, r.snapshotIndex, r.state, r.delayed.ctick, r.delayed.rejected
+//@ ensures r.state == remoteWait && r.next > r.match
+//@ func (r *remote) becomeReplicate [C02]
+//@ requires r.match < MaxUint64
+//@ modifies r.next, r.snapshotIndex, r.state
+//@ ensures r.state == remoteReplicate && r.next == r.match + 1 && r.snapshotIndex == 0
+//@ func (r *remote) becomeSnapshot [C02]
+//@ modifies r.snapshotIndex, r.state
+//@ ensures r.state == remoteSnapshot && r.snapshotIndex == index
+//@ func (r *remote) clearPendingSnapshot [C02]
+//@ modifies r.snapshotIndex
+//@ ensures r.snapshotIndex == 0
+//@ func (r *remote) tryUpdate [C02]
+//@ requires index < MaxUint64
+//@ modifies r.match, r.next, r.state
+//@ ensures r.match == max(old(r.match), index) && result == (old(r.match) < index)
+//@ ensures r.next == max(old(r.next), index + 1)
+//@ ensures r.state == ite(result && old(r.state) == remoteWait, remoteRetry, old(r.state))
+//@ func (r *remote) progress [C02]
+//@ requires lastIndex < MaxUint64
+//@ modifies r.next, r.state
+//@ ensures old(r.state) == remoteReplicate ==> r.next == lastIndex + 1 && r.state == remoteReplicate
+//@ ensures old(r.state) == remoteRetry ==> r.next == old(r.next) && r.state == remoteWait
+//@ func (r *remote) respondedTo [C02]
+//@ requires r.match < MaxUint64 && r.snapshotIndex < MaxUint64
+//@ modifies r.next, r.snapshotIndex, r.state
+//@ ensures old(r.state) == remoteRetry ==> r.state == remoteReplicate && r.next == r.match + 1
+//@ ensures old(r.state) == remoteSnapshot && r.match < old(r.snapshotIndex) ==> r.state == remoteSnapshot && r.snapshotIndex == old(r.snapshotIndex) && r.next == old(r.next)
+//@ ensures old(r.state) == remoteSnapshot && r.match >= old(r.snapshotIndex) ==> r.state == remoteRetry && r.next == r.match + 1
+//@ func (r *remote) decreaseTo [C02]
+//@ requires r.match < MaxUint64 && last < MaxUint64
+//@ modifies r.next, r.state
+//@ ensures !result ==> r.next == old(r.next) && r.state == old(r.state)
+//@ ensures old(r.state) == remoteReplicate ==> result == (rejected > r.match) && (result ==> r.next == r.match + 1)
+//@ ensures old(r.state) != remoteReplicate ==> result == (old(r.next) - 1 == rejected || (old(r.next) == 0 && rejected == MaxUint64)) && (result ==> r.next == max(1, min(rejected, last + 1)))
